@@ -31,6 +31,8 @@ structure Leaves (K : Bus → Bus → Prop) : Prop where
   removeConn : ∀ b c, K b (removeConn c b)
   connect : ∀ b c uid gids canFd, (b.conn? c).isSome = false →
     K b { b with conns := b.conns ++ [{ id := c, uid := uid, gids := gids, canFd := canFd }] }
+  /-- a connection stops or resumes reading: which outgoing queues are full changes -/
+  setFull : ∀ b l, K b { b with full := l }
 
 variable {K : Bus → Bus → Prop}
 
@@ -216,9 +218,23 @@ theorem lv_runMethod (L : Leaves K) (t : Tx) (c : ConnId) (m : Msg) (w : Method)
       | exact L.trans _ _ _ (lv_reply L t c m [] []) (lv_beMonitor L _ c _)
   | opaqueM =>
     simp only [runMethod]
-    show K t.bus (Tx.emit _ _).bus
-    rw [emit_bus, (opaque_fold_frame _ _ _).1]
-    exact L.refl _
+    have hf := opaque_fold_frame (captureTargets t.bus none (some c) (stampDriver t.bus c (mkReturn m [] []))) m.serial t
+    have g := L.gate ((captureTargets t.bus none (some c) (stampDriver t.bus c (mkReturn m [] []))).foldl
+          (fun (t : Tx) r => { t with mon := t.mon ++ [Out.opaque r m.serial] }) t).bus none (some c) (some c)
+          (stampDriver t.bus c (mkReturn m [] []))
+    rw [hf.1] at g
+    split
+    · rename_i p e hp
+      rw [(captureError_frame _ _ _ _).1]
+      rw [hf.1] at hp
+      rw [hp] at g
+      show K t.bus { (List.foldl _ t _).bus with pending := p }
+      rw [hf.1]; exact g
+    · rename_i p hp
+      rw [hf.1] at hp
+      rw [hp] at g
+      show K t.bus { (List.foldl _ t _).bus with pending := p }
+      rw [hf.1]; exact g
 
 /-- what `findHandler` can return: an interface row of the table that the message's interface (if
     any) names, and one of its method rows with the message's member -/
@@ -389,6 +405,7 @@ theorem lv_step (L : Leaves K) (tbl : List IfaceRow) (b : Bus) (ev : Ev) : K b (
     exact L.trans _ _ _ (L.expire b)
       (lv_foldl L (fun (t : Tx) (p : Pending) => sendError t p.caller (fakeCall p.serial) .noReply)
         (fun t p => lv_sendError L t _ _ _) b.pending ({ bus := { b with pending := [] } } : Tx))
+  | stall c on => exact L.setFull b _
 
 /-- a state predicate kept by every leaf is an invariant of all reachable states -/
 def keeps (P : Bus → Prop) (b b' : Bus) : Prop := P b → P b'
